@@ -275,10 +275,19 @@ func judgeText(c Case, w *vkit.W) {
 			w.Fail(c, "unit-disabled-error-spurious", fmt.Sprintf("%s(%q, rule=%d): ErrUnitDisabled without a unit or without the rule", path, text, c.Rule))
 		}
 	}
-	got, err := size.DefaultParser(text, size.Rule(c.Rule))
-	check("DefaultParser[string]", got, err)
-	got, err = size.DefaultParser(w.Scratch(text), size.Rule(c.Rule)) // a reused caller buffer
-	check("DefaultParser[[]byte]", got, err)
+	var got size.Size
+	var err error
+	if w.Flip() { // the order of the two instantiations alternates
+		got, err = size.DefaultParser(text, size.Rule(c.Rule))
+		check("DefaultParser[string]", got, err)
+		got, err = size.DefaultParser(w.Scratch(text), size.Rule(c.Rule)) // a reused caller buffer
+		check("DefaultParser[[]byte]", got, err)
+	} else {
+		got, err = size.DefaultParser(w.Scratch(text), size.Rule(c.Rule))
+		check("DefaultParser[[]byte]", got, err)
+		got, err = size.DefaultParser(text, size.Rule(c.Rule))
+		check("DefaultParser[string]", got, err)
+	}
 	if v.Shape {
 		got, err = size.DefaultParser(namedS(text), size.Rule(c.Rule))
 		check("DefaultParser[named string]", got, err)
